@@ -257,9 +257,20 @@ def callee_of(contract, inst, fixed):
     pick = lambda cl: [(c[0], c[1]) for c in cl if len(c) < 3 or inst in c[2]]
 
     def same(k, v):
-        return lambda a: (getattr(a, k) is v) if (v is None or isinstance(v, bool)) else getattr(a, k) == v
-    reqs = pick(contract.requires) + [(f"instance[{inst}].{k}", same(k, v)) for k, v in fixed.items()]
-    return CalleeContract(contract.target, contract.options["result"], reqs, pick(contract.ensures), assumed=False,
+        def f(a):
+            got = getattr(a, k)
+            if v is None or isinstance(v, bool) or got is None or isinstance(got, bool):
+                return got is v
+            return got == v
+        return f
+    checks = [(f"instance[{inst}].{k}", same(k, v)) for k, v in fixed.items()]
+
+    def applicable(a):
+        return all(c(a) is not False for _, c in checks)
+    # a call that does not match the instance fails its `instance[...]` obligation; nothing else is asked or assumed about it
+    guard = lambda fn: (lambda a, *rest: fn(a, *rest) if applicable(a) else True)
+    reqs = checks + [(l, guard(f)) for l, f in pick(contract.requires)]
+    return CalleeContract(contract.target, contract.options["result"], reqs, [(l, guard(f)) for l, f in pick(contract.ensures)], assumed=False,
                           note=f"verified in this property as {contract.short}[{inst}]")
 
 
@@ -293,20 +304,26 @@ def _p_nd(layout, nearest):
 def _nd_call(interp, st, fv, args):
     """builds the interpolator exactly as interpolate_dataset_along_axis does - the real `get_data` closure of
     dataset.py over the data array, the real __init__ - and calls the real `interpolate`"""
+    obj, cname = _nd_object(interp, st, fv, args)
+    return interp.call_function(st, fv, [obj, st.alloc({cname: args["x"]}, "dict")], {})
+
+
+def _nd_object(interp, st, fv, args):
     from pyvc import source
     from pyvc.values import FuncVal, CArr
     from pyvc.interp import Env
-    dims = LAYOUTS[args["layout"]]
+    cname = args.get("coordinate_name", "t")       # C14 re-uses this with a periodic coordinate name
+    dims = tuple(cname if d == "t" else d for d in LAYOUTS[args["layout"]])
     dsmod, outer, _ = source.locate("interpolate/dataset.py::interpolate_dataset_along_axis")
     clos = Env({"dimensions": st.alloc(list(dims), "list"), "data_set": st.alloc({"v": args["y"]}, "dict"), "variable": "v"}, module=dsmod)
     get_data = FuncVal(dsmod, _find_nested(outer, "get_data"), "get_data", closure=clos)
     passive = st.alloc(CArr((NPASSIVE,), {(k,): Fraction(k) for k in range(NPASSIVE)}), "passive_coordinate")
-    coords = st.alloc([(d, args["xp"] if d == "t" else passive) for d in dims], "list")
+    coords = st.alloc([(d, args["xp"] if d == cname else passive) for d in dims], "list")
     shape = tuple(st.deref(args["y"]).shape)
     cls = interp.module_attr(st, fv.module, "NdInterpolator")
-    obj = interp.instantiate(st, cls, [get_data, coords, shape, st.alloc(["t"], "list"), "t", st.alloc({"longitude": 360, "direction": 360}, "dict"),
+    obj = interp.instantiate(st, cls, [get_data, coords, shape, st.alloc([cname], "list"), cname, st.alloc({"longitude": 360, "direction": 360}, "dict"),
                                         None, None, args["nearest"]], {})
-    return interp.call_function(st, fv, [obj, st.alloc({"t": args["x"]}, "dict")], {})
+    return obj, cname
 
 
 def _nd_native(kw, inst):
@@ -314,14 +331,15 @@ def _nd_native(kw, inst):
     import numpy as np
     import xarray
     from ocean_science_utilities.interpolate.dataset import interpolate_dataset_along_axis
-    dims = LAYOUTS[kw["layout"]]
-    coords = {"t": np.asarray(kw["xp"], dtype=float)}
+    cname = kw.get("coordinate_name", "t")
+    dims = tuple(cname if d == "t" else d for d in LAYOUTS[kw["layout"]])
+    coords = {cname: np.asarray(kw["xp"], dtype=float)}
     if "p" in dims:
         coords["p"] = np.arange(NPASSIVE, dtype=float)
     ds = xarray.Dataset({"v": (dims, np.asarray(kw["y"], dtype=float)), "untouched": (("q",), np.array([1.0, 2.0, 3.0]))}, coords=coords)
-    out = interpolate_dataset_along_axis(np.asarray(kw["x"], dtype=float), ds, coordinate_name="t", nearest_neighbour=bool(kw["nearest"]))
+    out = interpolate_dataset_along_axis(np.asarray(kw["x"], dtype=float), ds, coordinate_name=cname, nearest_neighbour=bool(kw["nearest"]))
     assert np.array_equal(out["untouched"].values, ds["untouched"].values), "variable without the coordinate must pass through"
-    assert list(out["v"].dims) == list(dims) and np.array_equal(out["v"].coords["t"].values, np.asarray(kw["x"], dtype=float))
+    assert list(out["v"].dims) == list(dims) and np.array_equal(out["v"].coords[cname].values, np.asarray(kw["x"], dtype=float))
     return out["v"].values
 
 
@@ -435,6 +453,149 @@ def _nd_samples(nearest):
     return f
 
 
+# ------------------------------------------------------------------ NdInterpolator._data_interpolator (helper: combines the two neighbours)
+def _p_di(layout):
+    def p(mk):
+        n, m = mk.size("n"), mk.size("m")
+        dims = LAYOUTS[layout]
+        shape = tuple(n if d == "t" else NPASSIVE for d in dims)
+        return {"xp": mk.array("xp", (n,)), "y": mk.array("y", shape, "xreal"), "layout": layout, "nearest": False,
+                "number_points": m, "indices_1d": mk.array("indices_1d", (1, 2, m), "int"), "weights_1d": mk.array("weights_1d", (1, 2, m), "xreal")}
+    return p
+
+
+def _di_call(interp, st, fv, args):
+    obj, _ = _nd_object(interp, st, fv, args)
+    return interp.call_function(st, fv, [obj, args["number_points"], args["indices_1d"], args["weights_1d"]], {})
+
+
+def combined(y0, y1, v0, v1, w0, w1):
+    """what the helper computes from two neighbours with weights w0, w1 (possibly NaN): -> (is_missing, value)"""
+    use0 = And(v0, notnan(w0), gt(valof(w0), 0))
+    use1 = And(v1, notnan(w1), gt(valof(w1), 0))
+    wsum = If(use0, valof(w0), 0) + If(use1, valof(w1), 0)
+    vsum = If(use0, valof(w0) * valof(y0), 0) + If(use1, valof(w1) * valof(y1), 0)
+    ok = gt(wsum, Fraction(1, 2))
+    return Not(ok), vsum / If(ok, wsum, 1)
+
+
+def _di_layout(a):
+    """layout of the interpolator object at a call site / of the instance"""
+    if "layout" in a:
+        return a.layout
+    o = a.self
+    coord = list(o.coord)
+    if len(coord) == 1:
+        return "rank1"
+    return "rank2,axis0" if coord[0] == o.interp_index_coord_name else "rank2,axis1"
+
+
+def _di_data(a):
+    return a.y if "y" in a else a.self.get_data_array
+
+
+def _di_value(a, r):
+    lay = _di_layout(a)
+    y = a.y
+
+    def one(j):
+        i0, i1 = a.indices_1d[0, 0, j], a.indices_1d[0, 1, j]
+        w0, w1 = a.weights_1d[0, 0, j], a.weights_1d[0, 1, j]
+        out = []
+        for q in _passive_range(lay):
+            miss, val = combined(_cell(y, lay, i0, q), _cell(y, lay, i1, q), _slice_valid(y, lay, i0), _slice_valid(y, lay, i1), w0, w1)
+            res = _cell(r, lay, j, q)
+            out.append(And(iff(isnan(res), miss), implies(Not(miss), eq(valof(res), val, rtol=1e-9, atol=1e-9))))
+        return And(*out)
+    return forall(0, a.number_points, one, "j")
+
+
+def _di_shape(a, r):
+    lay = _di_layout(a)
+    m = a.number_points
+    if lay == "rank1":
+        return And(len(r.shape) == 1, r.shape[0] == m)
+    want = (m, NPASSIVE) if lay == "rank2,axis0" else (NPASSIVE, m)
+    return And(len(r.shape) == 2, r.shape[0] == want[0], r.shape[1] == want[1])
+
+
+def _di_native(kw, inst):
+    import numpy as np
+    from ocean_science_utilities.interpolate.nd_interp import NdInterpolator
+    dims = LAYOUTS[kw["layout"]]
+    data = np.asarray(kw["y"], dtype=float)
+
+    def get_data(indices, idims):
+        index = [slice(None)] * len(dims)
+        for interp_index, idim in zip(indices, idims):
+            index[idim] = interp_index
+        return data[tuple(index)]
+    coords = [(d, np.asarray(kw["xp"], dtype=float) if d == "t" else np.arange(NPASSIVE, dtype=float)) for d in dims]
+    obj = NdInterpolator(get_data, coords, data.shape, ["t"], "t", {}, None, None, False)
+    return obj._data_interpolator(int(kw["number_points"]), np.asarray(kw["indices_1d"]).astype("int64"), np.asarray(kw["weights_1d"], dtype=float))
+
+
+def _di_samples(rng, tier):
+    import numpy as np
+    out = []
+    for _ in range(30 if tier == "quick" else 300):
+        lay = list(LAYOUTS)[int(rng.integers(0, 3))]
+        n, m = int(rng.integers(2, 20)), int(rng.integers(0, 8))
+        shape = tuple(n if d == "t" else NPASSIVE for d in LAYOUTS[lay])
+        y = rng.normal(size=shape) * 10
+        y[rng.random(shape) < 0.2] = np.nan
+        w1 = rng.choice([0.0, 1.0, 0.5, 0.25, 0.75, 0.3], m)
+        wts = np.stack([1 - w1, w1])[None, :, :].copy()
+        if m and rng.random() < 0.5:
+            wts[0, :, int(rng.integers(0, m))] = np.nan
+        idx = rng.integers(0, n, (1, 2, m))
+        out.append((lay, {"xp": np.arange(n, dtype=float), "y": y, "layout": lay, "nearest": False, "number_points": m, "indices_1d": idx, "weights_1d": wts}))
+    return out
+
+
+def _di_result(mk, a):
+    o = mk.st.deref(a.self)
+    coord = [mk.st.deref(c) for c in mk.st.deref(o.fields["coord"])]
+    shape = tuple(a.number_points if c == o.fields["interp_index_coord_name"] else o.fields["data_shape"][i] for i, c in enumerate(coord))
+    return mk.array("interpolated", shape, "xreal")
+
+
+data_interpolator = Contract(
+    ND + "_data_interpolator",
+    instances=[(lay, _p_di(lay)) for lay in LAYOUTS],
+    requires=[("nodes", lambda a: ln(a.xp) >= 1), ("points", lambda a: a.number_points >= 0),
+              ("indices_in_range", lambda a: forall(0, a.number_points, lambda j: And(a.indices_1d[0, 0, j] >= 0, a.indices_1d[0, 0, j] < ln(a.xp),
+                                                                                      a.indices_1d[0, 1, j] >= 0, a.indices_1d[0, 1, j] < ln(a.xp)), "j"))],
+    ensures=[("shape", _di_shape), ("combination_of_the_two_neighbours", _di_value)],
+    call=_di_call,
+    options={"samples": _di_samples, "finite_reals": True, "native_call": _di_native, "result": _di_result},
+)
+
+
+def _call_site_ns(a):
+    """arguments of a call `self._data_interpolator(...)` in the vocabulary of the helper's contract: the data array is the
+    one the object's get_data closure was built over, the grid is the interpolated coordinate"""
+    from pyvc.verify import wrap
+    o = a.self
+    st = o._st
+    ds = st.deref(o._o.fields["get_data"].closure.vars["data_set"])
+    y = wrap(o._c, o._i, st, ds[o._o.fields["get_data"].closure.vars["variable"]])
+    name = o.interp_index_coord_name
+    xp = [c[1] for c in o.data_coordinates if c[0] == name][0]
+    coord = list(o.coord)
+    lay = "rank1" if len(coord) == 1 else ("rank2,axis0" if coord[0] == name else "rank2,axis1")
+    return NS({"y": y, "xp": xp, "layout": lay, "number_points": a.number_points, "indices_1d": a.indices_1d, "weights_1d": a.weights_1d})
+
+
+def data_interpolator_callee():
+    """the helper's verified contract as used at the call site inside `interpolate`"""
+    from pyvc.api import CalleeContract
+    adapt = lambda fn: (lambda a, *rest: fn(_call_site_ns(a), *rest))
+    return CalleeContract(data_interpolator.target, _di_result, [(l, adapt(f)) for l, f in data_interpolator.requires],
+                          [(l, adapt(f)) for l, f in data_interpolator.ensures], assumed=False,
+                          note="verified in C13 as NdInterpolator._data_interpolator (rank 1, rank 2 both axis positions)")
+
+
 def _nd_contract(nearest):
     mode = "nearest" if nearest else "linear"
     ens = [("shape", _nd_shape),
@@ -457,7 +618,7 @@ def _nd_contract(nearest):
 
 nd_linear, nd_nearest = _nd_contract(False), _nd_contract(True)
 
-CONTRACTS = [enclosing, weights, nd_linear, nd_nearest]
+CONTRACTS = [enclosing, weights, data_interpolator, nd_linear, nd_nearest]
 TRUSTED = ["targets and grid nodes are finite (no NaN / inf coordinates)",
            "np.searchsorted on a sorted array returns the number of cells < v (left) / <= v (right); sortedness is an obligation"]
 EXPLANATION = ""
